@@ -50,7 +50,7 @@ def gen_search(req):
     import boundary
     with warnings.catch_warnings():
         warnings.simplefilter("ignore")
-        grid = boundary.programs()
+        grid = boundary.programs(full=req["tier"] == "thorough")
     for g in grid:
         progs.append({"id": f"g{len(progs)}", "src": g["src"]})
         meta.append({"kind": "boundary_grid", "template": g["name"], "desc": g["name"]})
